@@ -112,6 +112,10 @@ def check_history(case, stats):
             else:
                 r = parse_default(parser, text, stop)
                 want = fresh(text, "en", stop)
+        elif case.get("clones") and own:
+            # prototype / clone pattern: every document gets a copy.copy() of the one parser and of the one matcher (odd documents use the
+            # prototypes themselves); copies share whatever the originals hold by reference
+            r = gh.parse(text, parser=parser if i % 2 else copy.copy(parser), matcher=matcher if i % 2 else copy.copy(matcher), stop=stop)
         else:
             r = gh.parse(text, parser=parser, matcher=matcher, stop=stop) if own else parse_default(parser, text, stop)
         if not mixed and r[0] != "ok" and not stop and i + 1 < len(items):
@@ -168,7 +172,7 @@ def unit_pool(a):
                         if k == 3 and a["sample"] and (n // a["nshards"]) % a["sample"] != a["seed"] % a["sample"]:
                             continue
                         yield {"sub": "history", "default": dflt, "names": list(hist), "items": [[POOL[h], s] for h, s in zip(hist, stops)], "check_dialects": n % 50 == 0,
-                               "own_matcher": not (dflt == "en" and n % 2), "dirty_matcher": n % 3 == 0, "mixed_call_styles": n % 5 == 0}
+                               "own_matcher": not (dflt == "en" and n % 2), "dirty_matcher": n % 3 == 0, "mixed_call_styles": n % 5 == 0, "clones": n % 7 == 3}
     sweep(stats, gen(), check_history)
     return stats
 
@@ -178,7 +182,7 @@ def g_history(s):
     for _ in range(s.rng(2, 5)):
         t = POOL[s.choice(sorted(POOL))] if s.int(3) == 0 else noisy.g_noisy(s)[0]
         items.append([t, s.int(4) == 0])
-    return {"sub": "history", "default": s.choice(["en", "en", "fr", "no"]), "items": items, "check_dialects": True, "own_matcher": bool(s.int(2))}
+    return {"sub": "history", "default": s.choice(["en", "en", "fr", "no"]), "items": items, "check_dialects": True, "own_matcher": bool(s.int(2)), "clones": s.int(5) == 0}
 
 
 def unit_sampled(a):
